@@ -94,7 +94,8 @@ Definition good_c10_gauge (c : cfg) (x : ist) : bool :=
   implb' (quiescent s && no_defect s) (g_gauge g =? -1).
 Definition good_c10_res (c : cfg) (x : ist) : bool :=
   let s := i_st x in let g := i_gs x in
-  (0 <=? g_res_min g) && (g_res g <=? 1) && (rc s =? g_res g) && Bool.eqb (reserved s) (g_res g =? 1) &&
+  (0 <=? g_res_min g) && (g_res g <=? 1) && (rc s =? g_res g) &&
+  (if c_max_retries c =? 0 then g_res g =? 0 else Bool.eqb (reserved s) (g_res g =? 1)) &&
   implb' (cleaned s) (g_res g =? 0).
 
 (* C14 *)
@@ -108,6 +109,35 @@ Definition good_c14 (c : cfg) (x : ist) : bool :=
 Definition good_c17 (src : srcp) (c : cfg) (x : ist) : bool :=
   let g := i_gs x in
   (g_new g <=? 1 + budget src c)%nat && negb (g_new_after_start g) && negb (g_new_unchosen g).
+
+(* C03 time-out liveness: a parked worker (not one-way, no defect pattern) is guarded by an armed timer, and from a parked state
+   with the global timer armed and nothing else pending, the expiry followed by the worker's reaction yields the 504 hijack reply *)
+Definition parked (s : st) : bool := negb (wdone s) && negb (sleeping s) && phase_eqb (ph s) PWaitNotify && negb (notify s).
+Fixpoint run_worker_n (src : srcp) (c : cfg) (n : nat) (x : st * gs) : st * gs :=
+  match n with
+  | O => x
+  | S n' => if worker_enabled (fst x) then let '(s1, o1) := worker src c (fst x) in run_worker_n src c n' (s1, gs_outs (snd x) o1) else x
+  end.
+Definition good_timeout (src : srcp) (c : cfg) (x : ist) : bool :=
+  let s := i_st x in let g := i_gs x in
+  implb' (parked s && no_defect s && negb (c_oneway c)) (global_armed s || match try_armed s with Some _ => true | None => false end) &&
+  implb' (parked s && global_armed s && negb (received s) && negb (down_reset s) && negb (up_reset s) && negb (direct s) &&
+          has_upreq s && (match c_send c with [] => true | _ => false end))
+         (let '(s1, o1) := env_step c EvGlobal s in
+          let '(s2, g2) := run_worker_n src c 40 (s1, gs_outs g o1) in
+          wdone s2 && cleaned s2 && g_ended g2 && match g_reply_kind g2 with Some (KHijack, 504) => true | _ => false end).
+
+(* C14: when a receive filter answered (no termination) and the client did not go away, the client gets that local reply,
+   complete, and every send filter was invoked on it (once per filter unless one of them stopped the chain) *)
+Definition good_c14_reply (c : cfg) (x : ist) : bool :=
+  let s := i_st x in let g := i_gs x in
+  implb' (g_denied g && negb (g_term g) && negb (i_dr x) && negb (i_tm x) && quiescent s && no_defect s)
+         (g_ended g && (g_hdr g =? 1)%nat && negb (existsb (fun n => (1 <? n)%nat) (scalls s)) &&
+          match g_reply_kind g with Some (KUp, _) => false | Some _ => true | None => false end).
+
+Definition good_all (src : srcp) (c : cfg) (x : ist) : bool :=
+  good_c03 c x && good_timeout src c x && good_c10_gauge c x && good_c10_res c x && good_c14 c x && good_c14_reply c x &&
+  good_c17 src c x.
 
 (* ---------- configuration families ---------- *)
 Definition mk (ow d t : bool) (r : route) (nh : nat) (ron : bool) (nr : nat) (codes : list Z) (tt : bool) (mx : Z)
@@ -144,8 +174,24 @@ Definition fam_filters1 : list cfg :=
                     [{| f_phase := p; f_code := 403; f_verdicts := [v] |}] [{| sf_verdicts := [sv] |}] [])
       [VContinue; VStop; VTerm]) deny_verdicts) [0; 1; 2]%nat.
 Definition fam_filters2 : list cfg :=
-  flat_map (fun p1 => flat_map (fun p2 =>
+  flat_map (fun pp =>
   flat_map (fun v1 => map (fun v2 =>
     mk false true false RouteForward 2 false 0 [] false 0
-       [{| f_phase := p1; f_code := 403; f_verdicts := [v1] |}; {| f_phase := p2; f_code := 429; f_verdicts := [v2; v2] |}] [] [])
-    deny_verdicts) deny_verdicts) [0; 1; 2]%nat) [0; 1; 2]%nat.
+       [{| f_phase := fst pp; f_code := 403; f_verdicts := [v1] |}; {| f_phase := snd pp; f_code := 429; f_verdicts := [v2; v2] |}] [] [])
+    deny_verdicts) deny_verdicts) [(0, 1); (1, 1); (1, 2); (2, 2)]%nat.
+
+(* a filter that hijacks but lets the chain continue, followed by every verdict *)
+Definition fam_hijack_cont : list cfg :=
+  flat_map (fun p => map (fun v2 =>
+    mk false false false RouteForward 2 true 0 [] false 0
+       [{| f_phase := p; f_code := 403; f_verdicts := [VHijackCont] |}; {| f_phase := p; f_code := 429; f_verdicts := [v2] |}]
+       [{| sf_verdicts := [] |}] [])
+    (VHijackCont :: deny_verdicts)) [0; 1; 2]%nat.
+
+(* larger retry budgets, status-code lists *)
+Definition fam_retry : list cfg :=
+  [mk false false false RouteForward 2 true 4 [] true 1 [] [] [PoolConnFail];
+   mk false true false RouteForward 2 true 4 [503] false 2 [] [] [];
+   mk false false false RouteForward 2 false 5 [] false 0 [] [] [PoolConnFail; PoolConnFail]].
+
+Definition chunk (k : nat) (l : list cfg) : list cfg := firstn 40 (skipn (40 * k) l).
